@@ -98,6 +98,19 @@ add("C17", "model_checking", E2 + " over writer life cycles (15 writer configura
     "every record exactly once in the right file.",
     "Writes after close are outside the alphabet; the clock inside flow.record.stream is scripted from the harness.", "DESIGN.md C17")
 
+add("C11", "exploration", E1 + " (full codec x container x naming x sequence matrix, junk-input enumeration, interleaved readers)",
+    "All 6 codec spellings x 4 containers x 7 ways of naming the source x 4 record sequences: the file starts with the codec magic and an "
+    "independent decompressor plus independent container decoder recover the records; every way of naming yields the same records through "
+    "the right reader class; two sources of one codec read alternately do not disturb each other; ~80 non-stream byte strings (magics "
+    "alone, every header prefix, displaced magic, compressed garbage, text) are refused through file object, stdin and neutral path.",
+    "gzip/bz2 from the stdlib and the lz4/zstandard bindings called directly are the standard decompressors.", "DESIGN.md C11")
+add("C13", "exploration", E1 + " executed in 18 worker processes (FLOW_RECORD_TZ x TZ) whose written bytes and read values are compared with each other",
+    "18 instants (year 1, pre-1970, epoch, DST gap and folds, year 9999, seeded) x 12 tzinfo kinds with fold 0/1 x up to 8 input forms x 4 "
+    "storage formats: values are aware, naive means UTC, the instant computed from the input's own utcoffset() and the offset survive "
+    "construction and storage (UTC for Avro); stored bytes, cells and read values are identical in all 18 environments; str() denotes the "
+    "same instant.",
+    "Instants are computed independently from wall clock minus utcoffset; sub-second offsets are not enumerated.", "DESIGN.md C13")
+
 NOT_BUILT = "check not built yet in this round (design in DESIGN.md section 3); not claimed until it runs"
 
 
